@@ -208,6 +208,7 @@ class Scenario:
             if cs:
                 cs.pending.clear()
                 cs.dropped = True
+                self.model.remove(cs.addr)
         need_resolve = []
         for a in res.order:
             cs = self.by_addr.get(a)
@@ -244,13 +245,27 @@ class Scenario:
     def apply(self, cs, m, d, rec):
         k = d["kind"]
         M = self.model
-        if k == "hello_v2":
+        if k in ("hello_v2", "hello_v1"):
             if m.connected:
                 return "ignored"
-            return "resolve"
-        if k == "hello_v1":
-            if m.connected:
-                return "ignored"
+            unique = not d.get("am", 0)
+            name = d.get("name", "") if k == "hello_v2" else ""
+            name_s = name.split("\0")[0] if isinstance(name, str) else ""
+            dec = M.connect_decision(m, d["mod_id"], unique, name_s)
+            if rec.get("uncertain"):
+                dec = "either"
+            d["decision"] = dec
+            d["same_id"] = [[self.by_addr[x.key].label, x.unique, x.fin] for x in M.mods.values()
+                            if x is not m and d["mod_id"] != 0 and x.mod_id == d["mod_id"]]
+            d["live_ids_before"] = sorted(M.live_ids(exclude=m))
+            # provisional application in service order; corrected from the observed outcome after the round
+            if dec == "refuse":
+                M.remove(cs.addr)
+            else:
+                M.do_connect(m, d["mod_id"] if d["mod_id"] != 0 else -1000 - m.uid, unique, name_s, bool(d.get("logger")),
+                             bool(d.get("daemon")), d.get("pid", 0))
+                if dec == "either":
+                    rec["uncertain"] = True
             return "resolve"
         if k in ("sub", "resume"):
             self.ctl_log.append((rec["n"], cs.label, k, d["t"]))
@@ -289,20 +304,20 @@ class Scenario:
         return "?"
 
     def resolve_hellos(self, lst, rec):
-        """Connection outcome is taken from observation (ACK vs closed) and fed to the model; the C06 check
-        compares it with the model's decision, other checks only need the resulting id."""
+        """The decision was taken (and provisionally applied) at service time; here the observed outcome (ACK
+        vs closed) is read and the model is corrected to follow what the manager actually did."""
         self.rig.settle()
         for cs, d in lst:
-            m = self.model.get(cs.addr)
-            if m is None:
-                continue
             unique = not d.get("am", 0)
             name = d.get("name", "") if d["kind"] == "hello_v2" else ""
             name_s = name.split("\0")[0] if isinstance(name, str) else ""
-            decision = self.model.connect_decision(m, d["mod_id"], unique, name_s)
+            decision = d["decision"]
             end = time.time() + 3.0
-            outcome = None
+            outcome, frames = None, []
             while True:
+                if cs.closed_by_us is not None:
+                    outcome = "self_closed"  # we closed it ourselves before the answer: unobservable
+                    break
                 try:
                     frames, _ = cs.wc.frames()
                 except W.ParseError:
@@ -320,20 +335,27 @@ class Scenario:
                 time.sleep(0.002)
                 self.rig.drainer.sync(0.5)
             cs.hello = outcome
-            d["decision"], d["outcome"] = decision, outcome
+            d["outcome"] = outcome
+            m = self.model.get(cs.addr)
             if outcome == "ack":
                 got = frames[0].dest_mod
                 d["ack_dest_mod"] = got
-                d["live_ids_before"] = sorted(self.model.live_ids(exclude=m))
                 mid = got if d["mod_id"] == 0 else d["mod_id"]
                 cs.mod_id = mid
                 cs.wc.mod_id = mid
+                if m is None:   # model refused, manager accepted: follow the manager
+                    m = self.model.accept(cs.addr)
+                    m.fin = cs.closed_by_us is not None
                 self.model.do_connect(m, mid, unique, name_s, bool(d.get("logger")), bool(d.get("daemon")),
                                       d.get("pid", 0))
             elif outcome == "closed":
                 self.model.remove(cs.addr)
                 cs.dropped = True
                 cs.pending.clear()
+            elif outcome == "self_closed":
+                if m is None:
+                    cs.dropped = True
+                    cs.pending.clear()
             else:
                 self.problems.append(f"handshake of {cs.label} in round {rec['n']}: outcome {outcome}")
             for fr in rec["frames"]:
